@@ -27,6 +27,33 @@ type EntrySpec struct {
 	Organism   string   `json:"organism,omitempty"`
 	Comment    string   `json:"comment,omitempty"`
 	Sequence   string   `json:"sequence"`
+	// valid calendar dates (YYYY-MM-DD) for the entry's created / modified attributes and the sequence's modified
+	// attribute; empty = 2009-05-05
+	Created, Modified, SeqModified string `json:",omitempty"`
+}
+
+func dateOr(d string) string {
+	if d == "" {
+		return "2009-05-05"
+	}
+	return d
+}
+
+// drawDate draws a valid calendar date; one in three is an edge of the calendar (leap days including the century
+// years, month and year ends, the earliest and latest years of the data bank).
+func drawDate(t *rapid.T, name string) string {
+	if rapid.IntRange(0, 2).Draw(t, name+"_edge") == 0 {
+		return rapid.SampledFrom([]string{"2000-02-29", "2004-02-29", "1996-02-29", "2024-02-29", "2400-02-29", "1600-02-29", "2020-02-28", "2021-02-28",
+			"1999-12-31", "2000-01-01", "1986-07-21", "2038-01-19", "2038-01-20", "1970-01-01", "1969-12-31", "2019-03-31", "2019-04-30", "2019-10-31", "2019-11-30",
+			"2100-02-28", "0001-01-01", "9999-12-31"}).Draw(t, name+"_edge_date")
+	}
+	y := rapid.IntRange(1986, 2030).Draw(t, name+"_year")
+	m := rapid.IntRange(1, 12).Draw(t, name+"_month")
+	days := []int{31, 28, 31, 30, 31, 30, 31, 31, 30, 31, 30, 31}[m-1]
+	if m == 2 && (y%4 == 0 && (y%100 != 0 || y%400 == 0)) {
+		days = 29
+	}
+	return fmt.Sprintf("%04d-%02d-%02d", y, m, rapid.IntRange(1, days).Draw(t, name+"_day"))
 }
 
 type Damage struct {
@@ -68,7 +95,11 @@ func document(c Case) (doc []byte, entryEnds []int, rootEnd int) {
 	b.WriteString(`<?xml version="1.0" encoding="UTF-8"?>` + "\n")
 	b.WriteString(`<uniprot xmlns="http://uniprot.org/uniprot" xmlns:xsi="http://www.w3.org/2001/XMLSchema-instance" xsi:schemaLocation="http://uniprot.org/uniprot http://www.uniprot.org/docs/uniprot.xsd">` + nl)
 	for i, e := range c.Entries {
-		fmt.Fprintf(&b, `<entry dataset="Swiss-Prot" created="2009-05-05" modified="2020-08-12" version="%d">%s`, i+1, nl)
+		modified := e.Modified
+		if modified == "" {
+			modified = "2020-08-12"
+		}
+		fmt.Fprintf(&b, `<entry dataset="Swiss-Prot" created="%s" modified="%s" version="%d">%s`, dateOr(e.Created), modified, i+1, nl)
 		for _, a := range e.Accessions {
 			b.WriteString(in1 + "<accession>" + esc(a) + "</accession>" + nl)
 		}
@@ -87,7 +118,7 @@ func document(c Case) (doc []byte, entryEnds []int, rootEnd int) {
 		if e.Comment != "" {
 			b.WriteString(in1 + `<comment type="function">` + nl + in2 + "<text>" + esc(e.Comment) + "</text>" + nl + in1 + "</comment>" + nl)
 		}
-		fmt.Fprintf(&b, `%s<sequence length="%d" mass="%d" checksum="C4F2A0B1D3E5F607" modified="2009-05-05" version="1">%s</sequence>%s`, in1, len(e.Sequence), 110*len(e.Sequence), e.Sequence, nl)
+		fmt.Fprintf(&b, `%s<sequence length="%d" mass="%d" checksum="C4F2A0B1D3E5F607" modified="%s" version="1">%s</sequence>%s`, in1, len(e.Sequence), 110*len(e.Sequence), dateOr(e.SeqModified), e.Sequence, nl)
 		b.WriteString("</entry>")
 		entryEnds = append(entryEnds, b.Len())
 		b.WriteString(nl)
@@ -513,6 +544,9 @@ func drawEntry(t *rapid.T) EntrySpec {
 		e.Comment = strings.TrimSpace(textGen.Draw(t, "comment"))
 	}
 	e.Sequence = vk.DrawSeq(t, "sequence", "ACDEFGHIKLMNPQRSTVWY", 1, 400).String()
+	if rapid.IntRange(0, 2).Draw(t, "dates") == 0 {
+		e.Created, e.Modified, e.SeqModified = drawDate(t, "created"), drawDate(t, "modified"), drawDate(t, "sequence_modified")
+	}
 	return e
 }
 
